@@ -408,8 +408,9 @@ pub fn run(ctx: &Ctx, rep: &mut Report) {
     };
     for (k, rc, n) in cfgs {
         let pool = samples::pool(k, ctx.seed);
-        // sample choice: shared / SNP / truncated+unique / rc+ambiguity / palindrome
-        let pick = [0usize, 1, 2, 3, 5, 6];
+        // sample choice: shared / SNP / N-only rows / rc+ambiguity / palindrome / truncated+unique
+        // (index 8 holds rows whose only stored symbol is N)
+        let pick = [0usize, 1, 8, 3, 5, 6, 2];
         let pool: Vec<Vec<Vec<u8>>> = pick.iter().take(n).map(|i| pool[*i].clone()).collect();
         let paths: Vec<String> = (0..n).map(|i| scratch::write(&format!("c07_s{i}.fa"), &scratch::fasta(&pool[i]))).collect();
         let c = Cfg { max_sel: if n >= 6 { 2 } else { 4 }, k, rc, n, pool, paths };
